@@ -303,17 +303,23 @@ func (r *runner) fullRanges(thorough bool) {
 				r.one(opDecimal(int64(int32(uint32(v)))), v != 0)
 			}
 		})
-		// every low-32-bit pattern under five high words: sweeps each decimal class border
+		// dense bands (2^22 patterns at either end of the low word) under five high words: both sides
+		// of each decimal class border of the 40- and 64-bit domains. (A full 2^32 sweep per high word
+		// was tried: 24 G evaluations, over two hours on this machine, for no border that the bands
+		// do not contain.)
+		const band = 1 << 22
 		for _, hw := range []uint64{0x00000000, 0x0000007f, 0xffffff80, 0x7fffffff, 0x80000000} {
 			hw := hw
-			enum.ParallelRange(1<<32, func(lo, hi uint64) {
-				for v := lo; v < hi; v += 1 {
+			enum.ParallelRange(2*band, func(lo, hi uint64) {
+				for i := lo; i < hi; i++ {
+					v := i
+					if i >= band {
+						v = (1 << 32) - 2*band + i
+					}
 					x := int64(hw<<32 | v)
 					r.one(opDecimal(x), true)
-					if v%16 == 0 {
-						r.one(opLong(x), true)
-						r.one(opLong5((x<<24)>>24), true)
-					}
+					r.one(opLong(x), true)
+					r.one(opLong5((x<<24)>>24), true)
 				}
 			})
 		}
